@@ -157,7 +157,7 @@ def selftest(ctx) -> None:
 
 def run(ctx) -> None:
     enumerate_lengths(ctx)
-    parallel(ctx, _shard, [(ctx.n(500, 12000),)] * ctx.n(8, 16))
+    parallel(ctx, _shard, [(ctx.n(500, 8000),)] * ctx.n(8, 16))
 
 
 def replay(ctx, case) -> None:
